@@ -440,6 +440,70 @@ func StoreLinearizableModuloRemovedPool(hist []*OpRecord, obs []StorePoolState, 
 	return storeLinearizable(relaxed, obs, pools, c2, true) == "" || storeLinearizable(relaxed, obs, pools, c2, false) == ""
 }
 
+// StoreSpec is the sequential specification run incrementally (for sequential histories).
+type StoreSpec struct{ s *specState }
+
+func NewStoreSpec() *StoreSpec { return &StoreSpec{newSpecState()} }
+
+// Apply advances the specification by one returned operation; false when the result is not the
+// one a sequential execution gives in the current state.
+func (sp *StoreSpec) Apply(rec *OpRecord) bool {
+	switch rec.Res {
+	case "ok", "exists", "keyexists", "notfound", "builderr", "unresolved":
+	default:
+		return false // contention / I/O classes cannot occur in a sequential history
+	}
+	ns, ok := storeSpecApply(sp.s, rec, rec.Res, true)
+	if ok {
+		sp.s = ns
+	}
+	return ok
+}
+
+// Matches compares the specification state with an observed visible state.
+func (sp *StoreSpec) Matches(obs []StorePoolState, pools, commits map[int]string, withChains bool) (bool, string) {
+	poolLbl := map[string]int{}
+	for l, id := range pools {
+		poolLbl[id] = l
+	}
+	commitLbl := map[string]int{}
+	for l, id := range commits {
+		commitLbl[id] = l
+	}
+	if !withChains {
+		// a handle view has no chains: compare with chains taken from the specification
+		o2 := make([]StorePoolState, len(obs))
+		copy(o2, obs)
+		for i := range o2 {
+			p := sp.poolByName(o2[i].Key)
+			bs := make([]StoreBranchState, len(o2[i].Branches))
+			copy(bs, o2[i].Branches)
+			for k := range bs {
+				if p != nil {
+					if b := p.branches[bs[k].Key]; b != nil {
+						bs[k].Chain = nil
+						for x := len(b.chain) - 1; x >= 0; x-- {
+							bs[k].Chain = append(bs[k].Chain, commits[b.chain[x]])
+						}
+					}
+				}
+			}
+			o2[i].Branches = bs
+		}
+		obs = o2
+	}
+	return storeSpecMatches(sp.s, obs, poolLbl, commitLbl)
+}
+
+func (sp *StoreSpec) poolByName(name int) *specPool {
+	for _, p := range sp.s.pools {
+		if p.name == name {
+			return p
+		}
+	}
+	return nil
+}
+
 // StoreIDStrings converts the registries of a run for the oracle.
 func (r *StoreRun) StoreIDStrings() (pools, commits map[int]string) {
 	pools, commits = map[int]string{}, map[int]string{}
